@@ -10,8 +10,10 @@ import (
 
 	"github.com/samaritan-proxy/samaritan/host"
 
+	"verif.local/sim/cluster"
 	"verif.local/sim/harness"
 	"verif.local/sim/simhook"
+	"verif.local/sim/simnet"
 	"verif.local/sim/simrt"
 	"verif.local/sim/world"
 )
@@ -36,6 +38,10 @@ type Fault struct {
 	Site      string `json:"site,omitempty"`
 	Nth       int    `json:"nth,omitempty"`
 	AtMs      int    `json:"at_ms,omitempty"`
+	// layout change: slots [From, To] move (with their data) to node To2
+	From int `json:"from,omitempty"`
+	To   int `json:"to,omitempty"`
+	Dst  int `json:"dst,omitempty"`
 }
 
 type RedisScenario struct {
@@ -45,6 +51,16 @@ type RedisScenario struct {
 	Faults   []Fault        `json:"faults,omitempty"`
 	HorizonS int            `json:"horizon_s,omitempty"`
 	EndStop  bool           `json:"end_stop,omitempty"` // end the history with Stop (C20)
+	// Down: nodes that refuse ("refuse") or black-hole ("blackhole") connections from the start
+	Down map[string]string `json:"down,omitempty"`
+	// Probes are connections started once all faults have fired, the proxy is quiescent and SettleMs
+	// of simulated time have passed; Probes2 follow the same way after Probes are answered.
+	Probes   []ConnScript `json:"probes,omitempty"`
+	Probes2  []ConnScript `json:"probes2,omitempty"`
+	SettleMs int          `json:"settle_ms,omitempty"`
+	// IdleFaults: pending faults fire once the clients are settled and the proxy is quiet (a connection
+	// lost while idle matters to properties about healing)
+	IdleFaults bool `json:"idle_faults,omitempty"`
 }
 
 type redisWorld struct {
@@ -67,6 +83,14 @@ type redisWorld struct {
 	hostTasks     []*simhook.Task
 	netCounts     map[string]int
 	inconclusive  bool
+
+	probeRound       int
+	probeStart       time.Time
+	probeStartStep   []int64
+	redirectsAtProbe []int
+	probeClients     []*world.Client
+	faultSteps       []int64 // step at which each fault fired (-1: not fired / nothing to act on)
+	quietSteps       []int64 // steps at which the proxy was quiescent (sampled)
 }
 
 func newRedisWorld(sc *RedisScenario) *redisWorld {
@@ -91,6 +115,80 @@ func (w *redisWorld) Setup(rt *simhook.Runtime) {
 	if len(w.sc.Conns) == 0 {
 		w.env.WhenReady(func() {})
 	}
+	for k, v := range w.sc.Down {
+		var i int
+		fmt.Sscanf(k, "%d", &i)
+		if i < len(w.env.Cluster.Nodes) {
+			o := simnet.DialRefused
+			if v == "blackhole" {
+				o = simnet.DialTimeout
+			}
+			w.env.Net.SetDown(w.env.Cluster.Nodes[i].Addr, o)
+		}
+	}
+}
+
+// startProbes starts the probe rounds when their preconditions hold (see RedisScenario.Probes).
+func (w *redisWorld) startProbes() {
+	if w.probeRound >= 2 || !w.allFaultsFired() || !w.env.Quiet() || !w.env.Ready() {
+		return
+	}
+	settle := time.Duration(w.sc.SettleMs) * time.Millisecond
+	ref := w.lastFault
+	if w.probeStart.After(ref) {
+		ref = w.probeStart
+	}
+	if ref.IsZero() {
+		ref = w.firstSendAt
+	}
+	var round []ConnScript
+	switch w.probeRound {
+	case 0:
+		if !w.phaseSettled(w.env.Clients) {
+			return
+		}
+		round = w.sc.Probes
+	case 1:
+		if !w.phaseSettled(w.probeClients) {
+			return
+		}
+		round = w.sc.Probes2
+		// convergence is promised "within a bounded number of refresh rounds", not instantly: the second round
+		// comes at least one simulated minute after the first (far below the horizon, far above any retry period)
+		if settle < time.Minute {
+			settle = time.Minute
+		}
+	}
+	if len(round) == 0 {
+		w.probeRound = 2
+		return
+	}
+	if time.Since(ref) < settle {
+		// let simulated time pass: nothing is runnable, the driver jumps to the next timer
+		if !w.rt.HasEvent("probe-wake") {
+			w.rt.AddEventAt(ref.Add(settle), "probe-wake", func() {})
+		}
+		return
+	}
+	w.probeRound++
+	w.probeStart = time.Now()
+	w.probeStartStep = append(w.probeStartStep, w.rt.Step)
+	w.redirectsAtProbe = append(w.redirectsAtProbe, w.env.Cluster.Redirects)
+	for _, cs := range round {
+		c := w.env.AddClient(cs.Name, cs.Reqs)
+		c.SlowRead, c.MaxOutstanding = cs.SlowRead, cs.MaxOut
+		w.probeClients = append(w.probeClients, c)
+		c.Start()
+	}
+}
+
+func (w *redisWorld) phaseSettled(cs []*world.Client) bool {
+	for _, c := range cs {
+		if !c.Settled() {
+			return false
+		}
+	}
+	return true
 }
 
 func (w *redisWorld) outstanding() int {
@@ -154,6 +252,10 @@ func (w *redisWorld) Check() *simrt.Violation {
 		}
 	}
 	w.fireFaults()
+	if w.env.Quiet() && (len(w.quietSteps) == 0 || w.quietSteps[len(w.quietSteps)-1] != w.rt.Step) {
+		w.quietSteps = append(w.quietSteps, w.rt.Step)
+	}
+	w.startProbes()
 	return nil
 }
 
@@ -192,11 +294,18 @@ func (w *redisWorld) fireFaults() {
 		default:
 			due = w.firstSend >= 0 && w.rt.Step-w.firstSend >= int64(f.AfterSend)
 		}
+		if !due && w.sc.IdleFaults && w.firstSend >= 0 && w.clientsSettled() && w.env.Quiet() {
+			due = true
+		}
 		if !due {
 			continue
 		}
 		w.fired[i] = true
+		for len(w.faultSteps) < len(w.sc.Faults) {
+			w.faultSteps = append(w.faultSteps, -1)
+		}
 		if w.inject(f) {
+			w.faultSteps[i] = w.rt.Step
 			w.faultsFired[f.Kind]++
 			w.lastFault = time.Now()
 			if w.outstanding() > 0 {
@@ -243,6 +352,34 @@ func (w *redisWorld) inject(f *Fault) bool {
 	case "silent":
 		n.Silent = true
 		return true
+	case "refuse":
+		w.env.Net.SetDown(n.Addr, simnet.DialRefused)
+		return true
+	case "blackhole":
+		w.env.Net.SetDown(n.Addr, simnet.DialTimeout)
+		return true
+	case "up":
+		n.Silent = false
+		if !n.Up {
+			n.Restart()
+		}
+		w.env.Net.SetDown(n.Addr, simnet.DialOK)
+		return true
+	case "layout":
+		if f.Dst >= len(c.Nodes) || c.Nodes[f.Dst].MasterOf >= 0 {
+			return false
+		}
+		moved := 0
+		for sl := f.From; sl <= f.To && sl < cluster.NumSlots; sl++ {
+			src := int(c.Owner[sl])
+			if src < 0 || src == f.Dst {
+				continue
+			}
+			c.MoveAllKeys(sl, src, f.Dst)
+			c.Owner[sl] = int16(f.Dst)
+			moved++
+		}
+		return moved > 0
 	case "host-remove":
 		if w.env.Proc == nil {
 			return false
@@ -307,6 +444,11 @@ func (w *redisWorld) Done() bool {
 	if !w.clientsSettled() {
 		return false
 	}
+	if (len(w.sc.Probes) > 0 || len(w.sc.Probes2) > 0) && w.probeRound < 2 {
+		if w.allFaultsFired() || w.sc.IdleFaults {
+			return false
+		}
+	}
 	if !w.env.Quiet() {
 		return false
 	}
@@ -339,6 +481,9 @@ func (w *redisWorld) Deadline() time.Time {
 	ref := w.firstSendAt
 	if w.lastFault.After(ref) {
 		ref = w.lastFault
+	}
+	if w.probeStart.After(ref) {
+		ref = w.probeStart
 	}
 	// pending faults keep the deadline open for a while; a trigger that has not occurred by then never will
 	if !w.allFaultsFired() {
